@@ -168,6 +168,7 @@ class History:
         vis_acc: dict[int, set] = {}              # cancelled scopes visible from t's current scope at any step since t last ran
         self._vis_acc = vis_acc
         start_joining: set[int] = set()         # starters that were interrupted and now wait for the child to end
+        uncancelled_by_program: set[int] = set()
         native_out: dict[int, int] = {}          # task -> native cancel requests not yet uncancelled by the program
         self._tainted = tainted_groups
         self._start_errors = {}
@@ -202,7 +203,9 @@ class History:
                     shield_events.append(i)
                 elif c == S.UNCANCEL:
                     ext_events.append((i, t))
-                    native_out[t] = max(native_out.get(t, 0) - 1, 0)
+                    # a program that calls uncancel() itself may consume requests AnyIO made (and will compensate
+                    # later): the lower bound on cancelling() is only meaningful for programs that never do that
+                    uncancelled_by_program.add(t)
                 elif c == S.GEXIT:
                     errs = [x for x in (hb[1] if hb else []) if not is_cancel_code(x)]
                     expected.setdefault(b, []).extend(errs)
@@ -277,7 +280,8 @@ class History:
                     elif op0[0] == S.START:
                         start_joining.add(t)
             elif c == S.RUNDELIVER and not self.real:
-                if a in exited and (3000 + a) in snap["ready"] and snap["ready"].count(3000 + a) >= prev["ready"].count(3000 + a):
+                if a in exited and (3000 + a) in snap["ready"] and snap["ready"].count(3000 + a) >= prev["ready"].count(3000 + a) \
+                        and snap["scopes"][a]["ntasks"] == 0 and snap["scopes"][a]["nchildren"] == 0:
                     self.v("C05", f"step {i}: delivery callback of scope {a} re-scheduled itself although the scope was left at step {exited[a]}")
             elif c == S.RUNTASKDONE:
                 t = a
@@ -361,7 +365,7 @@ class History:
                 self.check_timers(prev, snap, op, i, explicit_cancel)
             for tt, n in native_out.items():
                 tk = snap["tasks"].get(tt)
-                if tk is not None and tk["state"] < 3 and n > 0:
+                if tk is not None and tk["state"] < 3 and n > 0 and tt not in uncancelled_by_program:
                     self.flags.add("native_request_outstanding")
                     if tk["ncancel"] < n:
                         self.v("C05", f"step {i}: task {tt} has {n} native cancellation request(s) the program never uncancelled, but cancelling() = {tk['ncancel']}: a cancel scope erased a request it did not make")
